@@ -270,8 +270,8 @@ class Walker:
             seen |= frontier
             if is_for:
                 exits |= frontier                         # iterator exhausted
-                body_in = self._apply(frontier, ('iterate', st, st.target))  # type: ignore[attr-defined]
-                body_in = self._store(st.target, None, body_in)             # type: ignore[attr-defined]
+                body_in = self._store(st.target, None, frontier)            # type: ignore[attr-defined]
+                body_in = self._apply(body_in, ('iterate', st, st.target))  # type: ignore[attr-defined]
             else:
                 t = self.expr(st.test, frontier)          # type: ignore[attr-defined]
                 exits |= self._apply(t, ('assume', st.test, False))  # type: ignore[attr-defined]
